@@ -1,0 +1,55 @@
+//go:build verif
+// +build verif
+
+package node
+
+// Contracts for the deductive verifier in /verif (govc).  Comment-only file,
+// compiled only under the build tag `verif`.
+
+//@ property C15
+
+//@ func HashedKey(pk []byte) int
+//@   ensures result == int(murmur3sum(pk)) && 0 <= result && result < 4294967296
+
+//@ func GetHashedPartitionID(pk []byte, pnum int) int
+//@   requires pnum >= 1
+//@   ensures 0 <= result && result < pnum
+//@   ensures result == int(murmur3sum(pk)) % pnum
+
+// the client SDK's function (real source from the module cache, same SSA program)
+//@ extfunc github.com/youzan/go-zanredisdb.GetHashedPartitionID func(pk []byte, pnum int) int
+//@   requires pnum >= 1
+//@   ensures 0 <= result && result < pnum
+//@   ensures result == int(murmur3sum(pk)) % pnum
+
+//@ lemma lemmaPartitionAgreesWithSDK(pk []byte, pnum int) (int, int)
+//@   requires pnum >= 1
+//@   ensures result0 == result1 && 0 <= result0 && result0 < pnum
+
+// name of partition `part` of namespace `ns` (string formatting: assumed, injectivity not needed here)
+//@ spec nsDesp(ns string, part int) string
+//@ extern github.com/youzan/ZanRedisDB/common.GetNsDesp func(ns string, part int) string
+//@   ensures result == nsDesp(ns, part)
+
+//@ func (nn *NamespaceNode) IsReady() bool
+//@   inline
+
+// Representation invariant of the partition table (established by InitNamespaceNode,
+// which rejects conf.PartitionNum <= 0 before it stores a meta; InitNamespaceNode itself
+// does I/O and is not verified): every registered namespace has at least one partition.
+//@ spec nsMetasOK(nsm *NamespaceMgr) bool = forall k string :: in(k, nsm.nsMetas) ==> nsm.nsMetas[k] != nil && nsm.nsMetas[k].PartitionNum >= 1
+
+//@ spec kvNodesOK(nsm *NamespaceMgr) bool = forall k string :: in(k, nsm.kvNodes) ==> nsm.kvNodes[k] != nil
+
+//@ func (nsm *NamespaceMgr) GetNamespaceNodeWithPrimaryKeySum(nsBaseName string, pk []byte, pkSum int) (*NamespaceNode, error)
+//@   requires nsm != nil && nsMetasOK(nsm) && kvNodesOK(nsm)
+//@   ensures result1 == nil ==> in(nsBaseName, nsm.nsMetas)
+//@   ensures result1 == nil ==> in(nsDesp(nsBaseName, pkSum % nsm.nsMetas[nsBaseName].PartitionNum), nsm.kvNodes)
+//@   ensures result1 == nil ==> result0 == nsm.kvNodes[nsDesp(nsBaseName, pkSum % nsm.nsMetas[nsBaseName].PartitionNum)]
+//@   ensures result1 == nil && pkSum >= 0 ==> 0 <= pkSum % nsm.nsMetas[nsBaseName].PartitionNum && pkSum % nsm.nsMetas[nsBaseName].PartitionNum < nsm.nsMetas[nsBaseName].PartitionNum
+//@   ensures result1 != nil ==> result0 == nil
+
+//@ func (nsm *NamespaceMgr) GetNamespaceNodeWithPrimaryKey(nsBaseName string, pk []byte) (*NamespaceNode, error)
+//@   requires nsm != nil && nsMetasOK(nsm) && kvNodesOK(nsm)
+//@   ensures result1 == nil ==> in(nsBaseName, nsm.nsMetas)
+//@   ensures result1 == nil ==> result0 == nsm.kvNodes[nsDesp(nsBaseName, int(murmur3sum(pk)) % nsm.nsMetas[nsBaseName].PartitionNum)]
